@@ -188,7 +188,7 @@ def run_replay(rec, repo):
 
 
 TIERS = {
-    'quick': dict(sessions=2400, fresh=24, budget=300, reseed_every=0),
+    'quick': dict(sessions=3600, fresh=24, budget=300, reseed_every=0),
     'thorough': dict(sessions=10 ** 9, fresh=400, budget=1500, reseed_every=1500),
 }
 
